@@ -50,7 +50,7 @@ def run(out, prop, tier, seed, only_slices=None):
             continue
         cfg = clitools.DUMP_CFG.format(nsea=2, fmt='json', dom=dom, keep=keep) + 'INIT DInit\nNEXT DNext\nINVARIANT DTypeOK\n' + \
             ''.join('INVARIANT P_%s\n' % f for f in formulas) + 'INVARIANT ExportWorld\n'
-        res = tlc.run('MC_MibDump', 'g.cfg', files={'g.cfg': cfg}, timeout=6000)
+        res = tlc.run('MC_MibDump', 'g.cfg', files={'g.cfg': cfg}, timeout=6000, deadlock=True)
         out.add_tlc(res, 'MibDump(MibCompile formulas)/' + label)
         worlds = [e['w'] for e in res.exports if e['w']['usage'] == 'none']
         if cap and len(worlds) > cap:
